@@ -367,6 +367,10 @@ example : WellFormed treeDeep = true ∧ argsDeep.fits (takes treeDeep) = true
     ∧ isOk (eval treeDeep argsDeep) = true ∧ eval treeDeep argsDeep = denote treeDeep argsDeep := by
   decide +kernel
 
+/-- non-vacuity of `byConstituency_ideal`: table covers both constituencies, one is evaluated -/
+example : apportionmentCovers .none argsByCon = true
+    ∧ isOk (byConstituencyLaw (denote haT) .none Option.none argsByCon) = true := by decide +kernel
+
 /-- still open: no constituency evaluated (all have zero seats): StopIteration instead of empty results -/
 theorem byConstituency_all_zero_witness :
     eval (.byConstituency haT .none Option.none)
@@ -396,16 +400,12 @@ theorem byConstituency_max_seats_forced_witness :
 
 /-! ## 5. what the laws say, spelled out -/
 
-/-- every constituency of the votes is mentioned by the apportionment -/
-def Covered (seats votes : V) : Prop :=
-  ∀ sd kvs, seats = .dict sd → votes = .dict kvs → ∀ p ∈ kvs, D.has sd p.1 = true
-
 /-- the ideal reading of per-constituency evaluation (a constituency the table does not mention has no
     seats; empty results even when nothing is evaluated) coincides with what the code does whenever the
     apportionment mentions every constituency and the code's composition yields a value, i.e. at least
     one constituency is evaluated -/
 theorem byConstituency_ideal (dflt : V) (P : Sem) (app : App Sem) (pre : Option Sem) (a : Args) (r : V)
-    (hcov : ∀ seats, apportionLaw app a.votes (a.n.getD .none) = .ok seats → Covered seats a.votes)
+    (hcov : apportionmentCovers app a = true)
     (hr : byConstituencyLaw P app pre a = .ok r) :
     byConstituencyIdeal dflt P app pre a = .ok r := by
   simp only [byConstituencyLaw, byConstituencyIdeal] at hr ⊢
@@ -414,7 +414,7 @@ theorem byConstituency_ideal (dflt : V) (P : Sem) (app : App Sem) (pre : Option 
   | ok seats =>
     rw [hs] at hr
     simp only [ok_bind] at hr ⊢
-    have hc := hcov seats hs
+    have hc : covered seats a.votes = true := by simpa [apportionmentCovers, hs] using hcov
     cases hal : allowedLaw pre a.votes (a.n.getD .none) with
     | error e => rw [hal] at hr; cases hr
     | ok allowed =>
@@ -431,7 +431,10 @@ theorem byConstituency_ideal (dflt : V) (P : Sem) (app : App Sem) (pre : Option 
           intro p hp
           cases seats with
           | dict sd =>
-            obtain ⟨v, hv'⟩ := D.get?_of_has sd p.1 (hc sd kvs rfl hv p hp)
+            have hc' : D.has sd p.1 = true := by
+              simp only [covered, hv, List.all_eq_true] at hc
+              exact hc p hp
+            obtain ⟨v, hv'⟩ := D.get?_of_has sd p.1 hc'
             simp [V.items, hv']
           | num _ => rfl
           | cand _ => rfl
@@ -588,37 +591,52 @@ theorem tieBreaking_ideal (main tb : Sem) (a : Args)
           rw [replaceSel_eq_fill t.1 chosen acc (by simpa [List.all_eq_true] using this)]
           cases fillTie t.1 acc chosen <;> rfl
       rw [this]
+      rfl
     | dict d => rfl
     | num _ => rfl
     | cand _ => rfl
     | tie _ => rfl
     | none => rfl
 
-/-- `fillTie` keeps every place that is not the tie … -/
-theorem fillTie_keeps_others (t : List Cand) : ∀ (res chosen out : List V), fillTie t res chosen = some out →
-    out.filter (fun x => notTie t x) |>.length ≥ (res.filter (fun x => notTie t x)).length
-  | res, [], out, h => by simp [fillTie] at h; subst h; exact Nat.le_refl _
-  | [], _ :: _, out, h => by simp [fillTie] at h
-  | x :: xs, c :: cs, out, h => by
-      by_cases hx : notTie t x = true
-      · rw [fillTie_cons_other t x hx] at h
-        cases hf : fillTie t xs (c :: cs) with
+/-- non-vacuity of `tieBreaking_ideal`: Plurality ties B and C for the second seat, the input order picks B -/
+example :
+    let a : Args := { votes := sv [(0, 5), (1, 3), (2, 3)], n := some (.num 2) }
+    denote plurT a = .ok (.list [.cand 0, .tie [1, 2]])
+    ∧ choicesClean (denote inputOrderT) a.votes [.cand 0, .tie [1, 2]] = true
+    ∧ tieBreakingIdeal (denote plurT) (denote inputOrderT) a = .ok (.list [.cand 0, .cand 1])
+    ∧ eval (.tieBreaking plurT inputOrderT) a = .ok (.list [.cand 0, .cand 1]) := by decide +kernel
+
+/-- `fillTie` changes nothing else: every place that does not hold the tie keeps its entry … -/
+theorem fillTie_other_places (t : List Cand) : ∀ (res chosen out : List V), fillTie t res chosen = some out →
+    ∀ (i : Nat) (x : V), res[i]? = some x → notTie t x = true → out[i]? = some x
+  | res, [], out, h, i, x, hi, _ => by simp [fillTie] at h; subst h; exact hi
+  | [], _ :: _, out, h, _, _, _, _ => by simp [fillTie] at h
+  | y :: ys, c :: cs, out, h, i, x, hi, hx => by
+      by_cases hy : notTie t y = true
+      · rw [fillTie_cons_other t y hy] at h
+        cases hf : fillTie t ys (c :: cs) with
         | none => simp [hf] at h
         | some o =>
           simp [hf] at h; subst h
-          have := fillTie_keeps_others t xs (c :: cs) o hf
-          simp only [List.filter_cons, hx, if_true, List.length_cons]
-          omega
-      · have hxt : x = .tie t := by cases x <;> simp_all [notTie]
-        subst hxt
+          cases i with
+          | zero => simpa using hi
+          | succ j =>
+            simp only [List.getElem?_cons_succ] at hi ⊢
+            exact fillTie_other_places t ys (c :: cs) o hf j x hi hx
+      · have hyt : y = .tie t := by cases y <;> simp_all [notTie]
+        subst hyt
         simp only [fillTie, if_true] at h
-        cases hf : fillTie t xs cs with
+        cases hf : fillTie t ys cs with
         | none => simp [hf] at h
         | some o =>
           simp [hf] at h; subst h
-          have := fillTie_keeps_others t xs cs o hf
-          simp only [List.filter_cons, hx]
-          by_cases hc : notTie t c = true <;> simp [hc] <;> omega
+          cases i with
+          | zero =>
+            simp at hi; subst hi
+            simp [notTie] at hx
+          | succ j =>
+            simp only [List.getElem?_cons_succ] at hi ⊢
+            exact fillTie_other_places t ys cs o hf j x hi hx
 
 /-- … and never changes the number of places -/
 theorem fillTie_length (t : List Cand) : ∀ (res chosen out : List V), fillTie t res chosen = some out →
